@@ -50,6 +50,15 @@ static inline void a_real_transform(md5_ctx_t *ctx, const uint8_t *blocks, size_
 typedef md5_ctx_t	a_ctx_t;
 typedef hmac_md5_ctx_t	a_hctx_t;
 #define a_state(c)	((c)->hash)
+#define a_buffer(c)	((uint8_t *)(c)->buffer)
+#define A_BLK_LOG2	6
+/* step.c: count is a 64-bit BYTE counter; RFC 1321 3.2 uses the low-order 64 bits of the bit length */
+#define A_MAXQ_HI	0
+#define A_MAXN_HI	0
+#define a_count_lo(c)	((c)->count)
+#define a_count_hi(c)	((uint64_t)0)
+#define a_step_prepare(c, lo, hi)	do { (c)->count = (lo); } while (0)
+#define a_step_invariant(c)		do { } while (0)
 #define A_STATE_OFF	offsetof(md5_ctx_t, hash)
 #define a_init(c)			md5_init(c)
 #define a_update(c, d, n)		md5_update((c), (d), (n))
